@@ -66,6 +66,16 @@ def _drive(args):
                     v = bytes(r.randrange(1, 256) for _ in range(n))
                     v = b'\x95' * 0 + v
                 elif f.get('field_processor') == 'PDS':
+                    # the carrier is produced by the library from PDS entries: ONE entry of 992 (fits) .. 1993
+                    # characters; from 993 on its carrier would need more than three length digits
+                    if f['field_type'] != 'LLLVAR' or b != min((x for x in bits if bc[x].get('field_processor') == 'PDS'), key=int):
+                        continue
+                    for vn in (n - 7, n - 8 + 2, n - 7 + 7):
+                        t = isocheck.roundtrip_trace(tid, {'MTI': '1144', 'PDS0105': isoc.rtext(r, vn, alpha, 'safe')}, bc, codec, bool(tid & 1),
+                                                     'one PDS entry of %d characters (carrier DE%s would hold %d)' % (vn, b, vn + 7))
+                        t['_key'] = ''
+                        out.append(t)
+                        tid += 1
                     continue
                 elif py in ('int', 'long'):
                     v = int('9' * n)
